@@ -122,7 +122,9 @@ func c12unregistered(c *Ctx, mod string, tab *TableSpec) {
 			s.pc = append(s.pc, Not(Eq(k, C(k.W, uint64(en[0].(float64))))))
 		}
 	}
-	c.Witness(s, "an unregistered key exists", func(val func(*Term) uint64) any { return map[string]any{"table": tab.Name, "unregistered_key": kj(val)} })
+	c.Witness(s, "an unregistered key exists", func(val func(*Term) uint64) any {
+		return map[string]any{"table": tab.Name, "unregistered_key": kj(val)}
+	})
 	steps := func(val func(*Term) uint64) []map[string]any {
 		return []map[string]any{step("op", "factory", "module", mod, "fn", tab.NewFn, "args", []any{kj(val)})}
 	}
@@ -219,7 +221,10 @@ func c12fill(c *Ctx, mod string, tab *TableSpec, k int) {
 				return &Violation{Detail: what, Replay: &ReplayReq{Steps: steps(val), Judge: Judge{Kind: "buf_ne", Step: 2, ExpectHex: hexOf(evalBytes(refB, val))}}}
 			}
 		}
-		c.Prove(fs, "materialised-type", B(got == want), mk(fmt.Sprintf("Encode materialises %s for key %s, pinned type is %s", got, keyString(tab.Entries[k][0]), want)))
+		c.Prove(fs, "materialised-type", B(got == want), func(val func(*Term) uint64) *Violation {
+			return &Violation{Detail: fmt.Sprintf("Encode materialises %s for key %s, pinned type is %s", got, keyString(tab.Entries[k][0]), want),
+				Replay: &ReplayReq{Steps: steps(val), Judge: Judge{Kind: "body_type_ne", Step: 2, Note: bf.Go, ExpectRet: want}}}
+		})
 		if c.Prove(fs, "filled-length", Eq(out.Len, refB.Len), mk("bytes of the filled-in body differ in length from the reference")) {
 			c.Prove(fs, "filled-bytes", regionGoal(out, refB, CI(0), refB.Len, 4096), mk("bytes of the filled-in body differ from the reference encoding of a zero body"))
 		}
